@@ -49,7 +49,7 @@ def make_consts(ch, params):
     nglob = 0
     for i in range(n):
         t = ch.pick((I32, I64, F32, F64))
-        v = pools.draw_value(ch, t)
+        v = pools.draw_const(ch, t)
         keys.append((t, v))
         pos = ch.below(4)
         if pos == 0 or (pos == 1 and t in (I32, I64)):
